@@ -550,6 +550,191 @@ CONSTEXPR_USES_FREE = [
 ]
 
 
+def odr_definitions(ctx, headers):
+    """Before C++17 a static constexpr data member that is ODR-used (bound to a reference, passed to
+    a `const T&` parameter) needs a definition at namespace scope; from C++17 on the in-class
+    declaration is one.  A public member without it makes `q.data_in(decltype(q)::unit)` a link error
+    under C++14 only - accepted under one standard, refused under another.
+      S  over a TU of every public header (C++14): every static constexpr data member of a class
+         outside namespace detail is paired, by (class, member), with an out-of-line definition;
+         members of detail classes are counted and listed, not demanded (no program can name them)
+      I  for the documented members (`::unit` of the four main templates, unit labels, prefix labels,
+         numeric_limits<Quantity>) a C++14 -O0 IR module that binds each to a reference must DEFINE
+         every au:: global it references (an `external` / `available_externally` global is what the linker would miss)."""
+    tu = "".join('#include "%s"\n' % h for h in headers if not needs_gtest(h))
+    in_class = ('varDecl(isStaticStorageClass(), isConstexpr(), hasParent(cxxRecordDecl(unless(isImplicit())).bind("cls")), '
+                'isExpansionInFileMatching("/au/code/au/")%s)')
+    det = 'hasAncestor(namespaceDecl(hasName("detail")))'
+    ms = [("pub", in_class % (", unless(%s)" % det)), ("det", in_class % (", " + det)),
+          ("def", 'varDecl(isDefinition(), hasDeclContext(cxxRecordDecl()), unless(hasParent(cxxRecordDecl())), isExpansionInFileMatching("/au/code/au/"))')]
+    wd = ctx.sub("S")
+    src = os.path.join(wd, "odr.cc")
+    with open(src, "w") as f:
+        f.write(tu)
+    cmd = ["clang-query-14", "-c", "set output diag", "-c", "set bind-root true"] + [x for _, m in ms for x in ("-c", "match " + m)]
+    cmd += [src, "--", "-std=c++14", "-I" + AU_INC, "-w"]
+    rc, so, se = cxx.run(cmd)
+    blocks = re.split(r"^\d+ match(?:es)?\.$", so, flags=re.M)
+    if len(blocks) < 4:
+        raise AnalysisBroken("clang-query (ODR rule) gave %d result blocks for 3 matchers: %s" % (len(blocks) - 1, (se or so)[-400:]))
+    cache = {}
+
+    def L(f):
+        if f not in cache:
+            cache[f] = open(f).read().splitlines()
+        return cache[f]
+
+    def member_name(f, l):
+        t = " ".join(L(f)[l - 1:l + 2])
+        m = re.search(r"static\s+constexpr\s+[^=;{]*?(\w+)\s*(?:\[[^\]]*\])?\s*(?:=|\{|;)", t)
+        return m.group(1) if m else None
+
+    def class_name(f, l):
+        for k in range(l - 1, min(l + 6, len(L(f)))):
+            m = re.search(r"\b(?:struct|class)\s+(\w+)", L(f)[k])
+            if m:
+                return m.group(1)
+        return None
+
+    def qual(t):
+        t = re.sub(r"\s*=.*$", "", t.split(";")[0])
+        m = re.search(r"::\s*(\w+)\s*(?:\[[^\]]*\])?\s*$", t)
+        if not m:
+            return ("?", t[:80])
+        member, pre = m.group(1), t[:m.start()].rstrip()
+        if pre.endswith(">"):
+            depth, i = 0, len(pre) - 1
+            while i >= 0:
+                if pre[i] == ">":
+                    depth += 1
+                elif pre[i] == "<":
+                    depth -= 1
+                    if depth == 0:
+                        break
+                i -= 1
+            pre = pre[:i].rstrip()
+        m2 = re.search(r"(\w+)$", pre)
+        return (m2.group(1) if m2 else "?", member)
+
+    def need_of(block):
+        out = {}
+        for mb in re.split(r"^Match #\d+:$", block, flags=re.M):
+            r = re.search(r'^(\S+?):(\d+):\d+: note: "root" binds here', mb, re.M)
+            c = re.search(r'^(\S+?):(\d+):\d+: note: "cls" binds here', mb, re.M)
+            if r and c:
+                key = (class_name(c.group(1), int(c.group(2))), member_name(r.group(1), int(r.group(2))))
+                out.setdefault(key, set()).add((r.group(1), int(r.group(2))))
+        return out
+
+    pub, deta = need_of(blocks[0]), need_of(blocks[1])
+    have = {}
+    for m in re.finditer(r'^(\S+?):(\d+):\d+: note: "root" binds here', blocks[2], re.M):
+        f, l = m.group(1), int(m.group(2))
+        t = ""
+        for k in range(l - 1, min(l + 8, len(L(f)))):
+            t += " " + L(f)[k]
+            if ";" in L(f)[k]:
+                break
+        have.setdefault(qual(t), set()).add((f, l))
+    ctx.require(len(pub) >= 100 and len(have) >= 100, "ODR rule: only %d public static constexpr members and %d out-of-line definitions found" % (len(pub), len(have)))
+    ctx.require(all(k[0] and k[1] for k in pub), "ODR rule: a declaration could not be named: %s" % [k for k in pub if not (k[0] and k[1])][:3])
+    missing = 0
+    for k, locs in sorted(pub.items()):
+        if len(have.get(k, ())) < len(locs):
+            missing += 1
+            f, l = sorted(locs)[0]
+            ctx.violation("odr:%s::%s" % k, "%s::%s (%s:%d) is a public static constexpr data member without a definition at namespace scope: a C++14 program that binds it to a reference "
+                          "(e.g. passes it to a `const T&` parameter) does not link, the same program builds under C++17 and C++20" % (k[0], k[1], os.path.relpath(f, AU_INC), l))
+    undefined_detail = sorted("%s::%s" % k for k, locs in deta.items() if len(have.get(k, ())) < len(locs))
+    # I: the linker's question, decided on the module
+    uses = ["au::Quantity<au::Meters, int>::unit", "au::Quantity<au::Meters, double>::unit", "au::QuantityMaker<au::Meters>::unit", "au::QuantityPoint<au::Celsius, float>::unit",
+            "au::QuantityPointMaker<au::Celsius>::unit", "au::Meters::label", "au::Kilo<au::Meters>::label", "au::Celsius::label", "au::Gibi<au::Bytes>::label",
+            "std::numeric_limits<au::Quantity<au::Meters, int>>::digits", "std::numeric_limits<au::Quantity<au::Meters, float>>::has_infinity",
+            "decltype(au::meters(1))::unit", "decltype(au::celsius_pt(1.0))::unit", "au::SPEED_OF_LIGHT", "au::ZERO", "au::ONE", "au::meters", "au::symbols::m", "au::meter"]
+    text = ('#include "au/au.hh"\n#include "au/math.hh"\n#include "au/units/meters.hh"\n#include "au/units/celsius.hh"\n#include "au/units/bytes.hh"\n#include "au/constants/speed_of_light.hh"\n'
+            "template <class T> const void *addr(const T &x) { return &x; }\n"
+            + "".join('extern "C" const void *use_%d() { return addr(%s); }\n' % (i, u) for i, u in enumerate(uses)))
+    isrc, ill = os.path.join(wd, "odr_ir.cc"), os.path.join(wd, "odr_ir.ll")
+    with open(isrc, "w") as f:
+        f.write(text)
+    rc, so, se = cxx.run(["clang++", "-std=c++14", "-O0", "-S", "-emit-llvm", "-w", "-I" + AU_INC, isrc, "-o", ill])
+    if rc != 0:
+        raise AnalysisBroken("ODR rule: the reference-binding unit does not compile: %s" % se[-400:])
+    ir_text = open(ill).read()
+    ext = re.findall(r"^@(_ZN[^ ]*2au[^ ]*) = (?:external|available_externally) [^\n]*$", ir_text, re.M)
+    ctx.require(len(re.findall(r"^define [^\n]*@use_\d+", ir_text, re.M)) == len(uses), "ODR rule: use functions missing from the IR")
+    for sym in sorted(set(ext)):
+        ctx.violation("odr-ir:" + sym, "under C++14 the global %s is referenced but never defined by the headers (`external` / `available_externally` in the module): the program does not link; the in-class declaration is a definition only from C++17 on" % sym)
+    return dict(public_members=len(pub), detail_members=len(deta), out_of_line_definitions=len(have), public_without_definition=missing,
+                detail_without_definition=undefined_detail, ir_reference_bindings=len(uses), ir_undefined_globals=len(set(ext)))
+
+
+# call forms for every au function whose name std also declares (under some standard): {name: [expressions]}
+# q / q2: two quantities of one type, p / p2: two points of one type, ang: an angle, sq: a squared unit
+STD_COLLISION_CALLS = {
+    "min": ["min(q, q2)", "min(p, p2)", "min(q, cm)", "min(p, cmp)"],
+    "max": ["max(q, q2)", "max(p, p2)", "max(q, cm)", "max(p, cmp)"],
+    "clamp": ["clamp(q, q2, q)", "clamp(p, p2, p)", "clamp(q, cm, q2)", "clamp(p, cmp, p2)"],
+    "abs": ["abs(q)", "abs(qd)"],
+    "sqrt": ["sqrt(sq)"], "cbrt": ["cbrt(cu)"],
+    "hypot": ["hypot(qd, qd)", "hypot(qd, cmd)"],
+    "fmod": ["fmod(qd, qd)", "fmod(qd, cmd)"], "remainder": ["remainder(qd, qd)", "remainder(qd, cmd)"],
+    "copysign": ["copysign(qd, qd)", "copysign(qd, -1.0)", "copysign(1.0, qd)"],
+    "isnan": ["isnan(qd)", "isnan(pd)"],
+    "sin": ["sin(ang)"], "cos": ["cos(ang)"], "tan": ["tan(ang)"],
+    "arcsin": ["arcsin(0.5)"], "arccos": ["arccos(0.5)"], "arctan": ["arctan(0.5)"], "arctan2": ["arctan2(qd, qd)", "arctan2(1.0, 2.0)"],
+    "lerp": ["lerp(qd, qd, 0.5)", "lerp(pd, pd, 0.5)"], "mean": ["mean(q, q2)"],
+    "pow": ["pow<2>(meters)", "pow<-1>(meters)(2.0)", "pow<2>(Meters{})", "pow<2>(mag<3>())", "pow<2>(symbols::m)"],
+    "get": ["(void)0"], "swap": ["(void)0"],
+}
+
+
+def std_collisions(ctx):
+    """`using namespace std; using namespace au;` is an ordinary way to use both.  The standard library
+    grew between the standards (std::clamp and std::hypot(x, y, z) in C++17, std::lerp in C++20 ...):
+    a call whose au overload is not more specialised than the std one is fine under one standard and
+    ambiguous under the next.  Every function of namespace au whose NAME std also declares (decided
+    by asking the compilers for `using std::NAME;` under C++14 and C++20) is called, under both
+    using-directives, with operands of identical types and of mixed types; every call must be
+    accepted under all six configurations.  A colliding name without call forms is analysis-broken."""
+    tu = '#include "au/au.hh"\n#include "au/math.hh"\n'
+    ms = [("f", 'functionDecl(hasParent(namespaceDecl(hasName("au"))), unless(cxxMethodDecl()))'),
+          ("ft", 'functionTemplateDecl(hasParent(namespaceDecl(hasName("au"))))')]
+    r = srclint.clang_query(ctx, tu, ms, tag="apiall")
+    names = set()
+    for k in ("f", "ft"):
+        for f, l in r[k][1]:
+            if "/au/code/au/" not in f:
+                continue
+            src = open(f).read().splitlines()
+            txt = " ".join(src[l - 1:l + 4])
+            txt = re.sub(r"^\s*template\s*<[^{;]*?>\s*(?=(?:constexpr|inline|auto|static|friend|\w))", "", txt)
+            m = re.search(r"\b(operator\s*[^\s(]+|\w+)\s*\(", txt)
+            if m and not m.group(1).startswith("operator") and m.group(1) not in ("decltype", "noexcept", "static_assert", "enable_if_t", "sizeof"):
+                names.add(m.group(1))
+    ctx.require(len(names) >= 60, "only %d function names found in namespace au" % len(names))
+    probe_pre = "#include <algorithm>\n#include <cmath>\n#include <numeric>\n#include <utility>\n#include <tuple>\n#include <cstdlib>\n"
+    probes = [witness.Item("std:%s" % n, "using std::%s;" % n, "accept", None, dict(name=n)) for n in sorted(names)]
+    res, _ = witness.judge(ctx, probes, cxx.QUICK_CONFIGS, prelude=probe_pre, batch=200, tag="c20std")
+    colliding = sorted(it.meta["name"] for it in probes if any(not v.rejected for v in res[it.key].values()))
+    ctx.require(len(colliding) >= 8 and "clamp" in colliding and "min" in colliding, "std-collision probe found only %s" % colliding)
+    missing = [n for n in colliding if n not in STD_COLLISION_CALLS]
+    ctx.require(not missing, "functions of namespace au that std also declares, without call forms in STD_COLLISION_CALLS: %s" % missing)
+    prelude = (witness.DEFAULT_PRELUDE + "#include <algorithm>\n#include <cmath>\n#include <numeric>\n#include \"au/math.hh\"\n#include \"au/units/meters.hh\"\n#include \"au/units/radians.hh\"\n#include \"au/units/degrees.hh\"\n")
+    setup = ("using namespace std; using namespace au;\n"
+             "void w() { auto q = meters(1); auto q2 = meters(2); auto cm = au::centi(meters)(3); auto qd = meters(1.5); auto cmd = au::centi(meters)(2.5);\n"
+             "auto p = meters_pt(1); auto p2 = meters_pt(2); auto cmp = au::centi(meters_pt)(3); auto pd = meters_pt(1.5); auto ang = degrees(30.0); auto sq = squared(meters)(4.0); auto cu = cubed(meters)(8.0);\n"
+             "(void)q; (void)q2; (void)cm; (void)qd; (void)cmd; (void)p; (void)p2; (void)cmp; (void)pd; (void)ang; (void)sq; (void)cu;\n(void)(%s); }")
+    items = []
+    for n in colliding:
+        for e in STD_COLLISION_CALLS[n]:
+            if e != "(void)0":
+                items.append(witness.Item("stdns:%s:%s" % (n, e), setup % e, "accept", None, dict(desc="`%s` with `using namespace std; using namespace au;` in scope" % e)))
+    results, stats = witness.judge(ctx, items, cxx.ALL_CONFIGS, prelude=prelude, batch=30, tag="c20ns")
+    nbad = witness.report_mismatches(ctx, items, results, prelude=prelude)
+    return dict(au_function_names=len(names), names_also_in_std=colliding, calls=len(items), configs=len(cxx.ALL_CONFIGS), mismatches=nbad)
+
+
 def api_free_functions(ctx):
     tu = '#include "au/au.hh"\n#include "au/math.hh"\n'
     ms = [("f", 'functionDecl(isConstexpr(), hasParent(namespaceDecl(hasName("au"))), unless(cxxMethodDecl()))'),
@@ -639,17 +824,21 @@ def body(ctx):
     ctx.log("single file: %s" % sf)
     cx = constexpr_parity(ctx)
     ctx.log("constexpr parity: %s" % cx)
+    odr = odr_definitions(ctx, headers)
+    ctx.log("ODR definitions: %s" % odr)
+    stdc = std_collisions(ctx)
+    ctx.log("std collisions: %s" % stdc)
     total = sum(inst.values()) + fa["fwd_records"] + mat["programs"] + sf["programs"] + sf["ir_functions_compared"]
     ctx.coverage.update(dict(
         evaluations=total, distinct_nontrivial=total,
         rule="rule instances of R1..R6 over every non-test header (counted per header / include / line / conditional), "
              "forward-declared records matched by clang-query, one program per (header, alone|twice) and per random all-headers "
              "order per configuration, per generated single file: 2 TUs per configuration + IR link, and one DAG comparison per "
-             "API-surface wrapper per packaging/standard pair; one constant-expression use per API operation judged under all six configurations (accepted / refused alike)",
+             "API-surface wrapper per packaging/standard pair; one constant-expression use per API operation judged under all six configurations (accepted / refused alike); every public static constexpr data member paired with its namespace-scope definition (C++14 ODR), and a C++14 module binding the documented ones to references must define every au:: global it references; every au function whose name std also declares called under both using-directives with identical and mixed operand types, all six configurations",
         samples=[dict(rule="R1", header=headers[0]), dict(matrix="alone:%s" % headers[3]),
                  dict(single_file_selection="surface_io", args=["--units", "meters", "seconds", "hertz"]),
                  dict(api_surface="s_lossy compared as normalised IR DAG between single file and tree")],
-        exhaustive=False, structural=inst, fwd=fa, matrix=mat, single_file=sf, constexpr_parity=cx,
+        exhaustive=False, structural=inst, fwd=fa, matrix=mat, single_file=sf, constexpr_parity=cx, odr_definitions=odr, std_collisions=stdc,
         reviewed_conditionals=["%s: %s" % k for k in REVIEWED_CONDITIONALS],
         configs=[c.name for c in configs]))
     ctx.assumptions += ["the single-file generator is run as a build step (python), its output is analysed, never executed",
